@@ -1181,6 +1181,9 @@ class Interp:
     def loop_spec(self, node=None):
         if not self.call_stack:
             spec = self.hooks.get("block_loop")
+            if callable(spec) and not hasattr(spec, "invariants"):
+                # a block with several loops: the hook maps the loop statement to (spec, name)
+                return spec(node)
             return spec, "block/loop"
         clo = self.call_stack[-1]
         # loop ordinal = position of the loop statement among the loops of the function, in source order
